@@ -28,8 +28,10 @@ CONSTANTS MaxOps
 \* ---- attributes
 NoGe == 0 - 999   NoLen == 999   Inf == 99
 \* pk: the persistence argument primary_key (-1 = not stated); vals: the enumeration of allowed values ("none" = open)
-Attrs0 == [ge |-> NoGe, minlen |-> 0, maxlen |-> NoLen, mino |-> 0, maxo |-> 1, nil |-> TRUE, pk |-> 0 - 1, vals |-> "none"]
-KW == {"min1", "nil0", "ge5", "len3", "pk1", "pk0", "v03", "v36"}
+\* pa: what the type says FOR ONE PROTOCOL (prot_attrs / pa = {JsonDocument: {...}}): nothing, exc=True, or sub_name - stating it at a
+\* derivation REPLACES what the type derived from says (and never touches that type's own table)
+Attrs0 == [ge |-> NoGe, minlen |-> 0, maxlen |-> NoLen, mino |-> 0, maxo |-> 1, nil |-> TRUE, pk |-> 0 - 1, vals |-> "none", pa |-> "none"]
+KW == {"min1", "nil0", "ge5", "len3", "pk1", "pk0", "v03", "v36", "paexc", "pasub"}
 Apply(a, kw) == CASE kw = "min1" -> [a EXCEPT !.mino = 1]
                   [] kw = "nil0" -> [a EXCEPT !.nil = FALSE]
                   [] kw = "ge5"  -> [a EXCEPT !.ge = 5]
@@ -38,10 +40,12 @@ Apply(a, kw) == CASE kw = "min1" -> [a EXCEPT !.mino = 1]
                   [] kw = "pk0"  -> [a EXCEPT !.pk = 0]
                   [] kw = "v03"  -> [a EXCEPT !.vals = "v03"]      \* values = the probe texts of length 0 and 3
                   [] kw = "v36"  -> [a EXCEPT !.vals = "v36"]      \* values = the probe texts of length 3 and 6
+                  [] kw = "paexc" -> [a EXCEPT !.pa = "exc"]
+                  [] kw = "pasub" -> [a EXCEPT !.pa = "sub"]
 RECURSIVE ApplyAll(_, _)
 ApplyAll(a, kws) == IF kws = <<>> THEN a ELSE ApplyAll(Apply(a, Head(kws)), Tail(kws))
-KwFor(base) == CASE base = "int" -> {"min1", "nil0", "ge5", "pk1", "pk0"}
-                 [] base = "str" -> {"min1", "nil0", "len3", "pk1", "pk0", "v03", "v36"}
+KwFor(base) == CASE base = "int" -> {"min1", "nil0", "ge5", "pk1", "pk0", "paexc", "pasub"}
+                 [] base = "str" -> {"min1", "nil0", "len3", "pk1", "pk0", "v03", "v36", "paexc", "pasub"}
                  [] OTHER        -> {"min1", "nil0"}
 \* Mandatory(): min_occurs=1, nillable=False, and min_len=1 for text
 Mand(a, base) == IF base = "str" THEN [a EXCEPT !.mino = 1, !.nil = FALSE, !.minlen = 1]
